@@ -135,10 +135,7 @@ func asFieldLoad(v ssa.Value) (ssa.Value, string, bool) {
 	return nil, "", false
 }
 
-func fieldName(fa *ssa.FieldAddr) string {
-	st := fa.X.Type().Underlying().(*types.Pointer).Elem().Underlying().(*types.Struct)
-	return st.Field(fa.Field).Name()
-}
+func fieldName(fa *ssa.FieldAddr) string { return canonField(fa.X.Type(), fa.Field) }
 
 func isGlobal(v ssa.Value, pkgName, name string) bool {
 	g, ok := v.(*ssa.Global)
